@@ -120,7 +120,7 @@ def worker(item: Any, res: runner.Result) -> None:  # pylint: disable=too-many-l
         if len(gs) not in (0, 16) or len(gi) not in (0, 16):
             nontrivial = True
     # exactness on the direct-check fragment
-    if mode in ("direct", "g1a"):
+    if mode == "direct" or (mode == "g1a" and not sem.can_fall_off_end(case.lines)):
         abstract.check_c06_exact(case, item, res)
     res.outcome(tuple(outcome))
     if nontrivial:
